@@ -85,6 +85,7 @@ func (u *Unit) Run() {
 			u.addOblNamed(st, "refines", fmt.Sprintf("refines/pre#%d", i+1), "own precondition follows from the interface contract: "+r.Src, fn.Pos(), u.evalBoolF(env, st, r.Expr))
 		}
 	}
+	u.applyGhostAssigns(ct.GhostInits, env, st)
 	for _, r := range ct.Requires {
 		u.assume(st, u.evalBoolF(env, st, r.Expr))
 	}
